@@ -21,7 +21,7 @@ class Contract:
 
     def __init__(self, name, target, state, requires=(), refines=None, view=None, ensures=(),
                  raises=(), policy=None, loops=None, props=(), call_kwargs=None, note="",
-                 max_paths=4000, timeout_ms=None, ref_args=None, ghost=(), setup=(), replayable=True):
+                 max_paths=4000, timeout_ms=None, ref_args=None, ghost=(), setup=(), replayable=True, kw=()):
         self.name = name
         self.target = target
         self.state = state
@@ -41,6 +41,7 @@ class Contract:
         # False: callees are abstracted by contract (oracle outcomes / havoc), so a counter-model has no
         # native run; a refuted obligation is then reported with `no-failing-input-found`
         self.replayable = replayable
+        self.kw = list(kw)        # state entries passed to the target as keyword arguments (others keep their defaults)
         self.setup = list(setup)   # spec functions run on the fresh state before `requires` (pre-state by construction)
         self.ghost = list(ghost)   # state entries that are specification-only (not passed to the target)
 
